@@ -10,8 +10,8 @@ PROP = 'C06'
 CHECK_MODS = ['Model.Core', 'Model.Savepoint', 'Checks.Corechk', 'Checks.CoreProps', 'Checks.C06chk']
 CASE_TYPE = 'C06_case'
 CORR, PROPCHK = 'C06_corr', 'C06_prop'
-THEOREMS = ['C06_rollback_restores', 'C06_as_if_never_attempted', 'C06_savepoint_database_restored',
-            'C06_savepoint_partial', 'C06_no_state_left_in_memory', 'C06_clear_connection_is_the_code',
+THEOREMS = ['C06_rollback_restores', 'C06_as_if_never_attempted', 'C06_savepoint_restores',
+            'C06_savepoint_as_if_never_attempted', 'C06_no_state_left_in_memory', 'C06_clear_connection_is_the_code',
             'C06_clear_is_the_code', 'C06_clear_inside_savepoint_does_nothing', 'C06_example']
 RULE = ('(F) fault injection through the public before_cursor_execute event: for generated histories one transaction is '
         'chosen and a failure is raised at a statement boundary of it (quick: first, last and up to 4 random boundaries; '
